@@ -8,7 +8,7 @@ From AS.Spec Require Import Terminal.
 From AS.Model Require Import Sgr Table Render Scrub.
 From AS.Model Require Import Tokenizer.
 From AS.Proofs Require Import GenConsts GenCodeTable SgrProofs ScrubProofs FlagsProofs GenFns.
-From AS.Proofs Require TableProofs RenderProofs RenderStrip InvariantProofs.
+From AS.Proofs Require TableProofs RenderProofs RenderStrip InvariantProofs RoundTripEsc RenderStripEsc.
 Local Open Scope list_scope.
 Local Open Scope N_scope.
 
@@ -68,6 +68,31 @@ Theorem C15_render_strip_reachable : forall a o rs re ae,
   unformatted (tokenize ae (Some [CH_m]) (to_str a o rs re)) = base a.
 Proof. exact RenderStrip.render_strips_to_base_WFv. Qed.
 Print Assumptions C15_render_strip_reachable.
+
+(* ... also when the text itself contains control sequences, as long as they are complete, not SGR, and no change point
+   lies strictly inside one (RoundTripEsc.cuts_closed - what falls outside is known finding K1): they stay in the text,
+   only the emitted SGR sequences are removed; for both values of allow_empty_terminator *)
+Theorem C15_render_strip_esc : forall a o rs re ae,
+  TableProofs.ssorted (tbl a) -> is_valid_tbl (tbl a) = true -> RoundTripEsc.cuts_closed a = true ->
+  unformatted (tokenize ae (Some [CH_m]) (to_str a o rs re)) = base a.
+Proof. exact RenderStripEsc.render_strips_to_base_esc. Qed.
+Print Assumptions C15_render_strip_esc.
+
+Theorem C15_render_strip_esc_reachable : forall a o rs re ae,
+  InvariantProofs.WFv a -> is_valid_tbl (tbl a) = true -> RoundTripEsc.cuts_closed a = true ->
+  unformatted (tokenize ae (Some [CH_m]) (to_str a o rs re)) = base a.
+Proof. exact RenderStripEsc.render_strips_to_base_esc_WFv. Qed.
+Print Assumptions C15_render_strip_esc_reachable.
+
+Theorem C15_render_sequences_esc : forall a o rs re ae,
+  is_valid_tbl (tbl a) = true -> RoundTripEsc.cuts_closed a = true ->
+  RenderStrip.seqs_of (tokenize ae (Some [CH_m]) (to_str a o rs re))
+  = map RenderStrip.sgr_seq (RenderStrip.codes_of (to_str_toks a o rs re)).
+Proof. exact RenderStripEsc.render_sequences_esc. Qed.
+Print Assumptions C15_render_sequences_esc.
+
+Example C15_esc_example := RenderStripEsc.ex_ev_stripped.
+Example C15_cuts_closed_needed := RenderStripEsc.cuts_closed_needed.
 
 (* ... the removed sequences are exactly the emitted SGR sequences, each ended by m ... *)
 Theorem C15_render_sequences : forall a o rs re ae,
